@@ -85,5 +85,12 @@ CLAIMS['C16'] = {
   'note': _TB + 'Collaborators are recording spies; entry points are the list read off the code - a new disclosing entry point would not be seen; behavioural equivalence of the protected program is not covered.',
 }
 
+CLAIMS['C25'] = {
+  'text': 'Proof: RandomFile.put writes exactly the L-byte field buffer at byte offset (n-1)*L, zero-fills only the gap beyond the old end of file, leaves LOF = max(old, n*L) and LOC = n; '
+          'RandomFile.get takes the L bytes at (n-1)*L or zeros at/after the end, writes nothing; lof/loc; Files._check_pos raises Bad record number exactly outside 1..2^25. '
+          'Record length, record numbers and file length are unbounded symbolic integers.',
+  'note': _TB + 'The host file is a stand-in of symbolic length with logged accesses (content unmodelled); FieldFile.get_buffer/set_buffer and locks by assumed contract; float rounding of the record number abstracted (C03). One defect found and fixed.',
+}
+
 NOT_APPLICABLE = {
 }
